@@ -100,7 +100,7 @@ func init() {
 				}
 				if lp.prop == 4 {
 					hs = append(hs, HarnessSpec{Name: "messages-queued-while-shutting-down", Pkg: "actor", Func: "ZZ_C08", Preempt: 1,
-						Params: pm("D", 1, "F", 2, "mode", 3), Deadline: 40 * time.Minute, ReplayAttempts: 8})
+						Params: pm("D", 1, "F", 2, "mode", 3), Witnesses: []string{"child-busy-when-parent-stops"}, Deadline: 40 * time.Minute, ReplayAttempts: 8, TrustRace: true})
 				}
 				if lp.prop == 4 {
 					hs = append(hs, HarnessSpec{Name: "spawn-races-with-senders", Pkg: "actor", Func: "ZZ_L2", Preempt: 2,
@@ -247,12 +247,14 @@ func init() {
 	reg(&PropSpec{
 		ID: "C02",
 		Harnesses: func(tier string) []HarnessSpec {
-			return []HarnessSpec{inbox(2, tier), l2(2, 2, 2, 1, "restart", "restart-during-spawn")}
+			return []HarnessSpec{inbox(2, tier), l2(2, 2, 2, 1, "restart", "restart-during-spawn"),
+				{Name: "child-busy-when-its-parent-shuts-down", Pkg: "actor", Func: "ZZ_C08", Preempt: 1, Params: pm("D", 1, "F", 2, "mode", 3),
+					Witnesses: []string{"child-busy-when-parent-stops"}, Deadline: 40 * time.Minute, ReplayAttempts: 8, TrustRace: true}}
 		},
 		Bounds: func(tier string) string {
 			return fmt.Sprintf("inbox unit: %d senders x 2 messages, Start racing, preemption bound 2, receiver yields inside every Invoke; process unit: spawner (Initialized/Started on its goroutine) + 2 senders x 2 messages, one symbolic crash - a user message (restart on the worker goroutine) or the first incarnation's Started handler (restart on the spawning goroutine while senders already push) -, receiver yields twice inside every Receive; overlap = a second Receive/Invoke entered while one is active; happens-before: the receiver declares an unsynchronised write to its state at every entry and the executor's vector-clock race detector (edges: atomics, mutexes, go, channel operations) must find every pair of entries ordered, and no unordered plain/atomic conflict in the repository's own accesses", tierSel(tier, 2, 3))
 		},
-		Outside:     []string{"Stop/Poison callers", "more goroutines / preemptions", "a data race reported by the executor's detector cannot be confirmed by native replay and is trusted (the detector's edges are those of the sync/atomic models)"},
+		Outside:     []string{"Stop/Poison callers of the actor itself (a parent-initiated shutdown of a busy child is included: tree harness, preemption bound 1)", "more goroutines / preemptions", "a data race reported by the executor's detector cannot be confirmed by native replay and is trusted (the detector's edges are those of the sync/atomic models)"},
 		Assumptions: thrAssume("units as for C01"),
 	})
 	reg(&PropSpec{
